@@ -9,6 +9,12 @@ ENC_MODE = {'der': ('der', True, 0), 'cer': ('cer', False, 1000)}
 CORPUS = [
     # time values under explicit tags and as members: the canonical encoders write them like every other string
     ("(tag e c 3 (str 24))", "(s 32303137303830313132303131325a)"),
+    # one high tag number (long identifier form) met in both forms within one element: constructed for an explicit wrapper or
+    # a segmented string, then primitive
+    ("(seq (r (tag e c 40 int)) (r (seq (r (tag i c 40 int)))))", "(seq (i 5) (seq (i 7)))"),
+    ("(seq (r (tag e p 1000 (str 4))) (r (tag i p 1000 bool)))", "(seq (s 6162) (b 1))"),
+    ("(seqof (tag i a 40 (str 4)))", "(of (s %s) (s 616263))" % ('5a' * 1500)),
+    ("(seqof (tag i a 40 (str 4)))", "(of (s 616263) (s %s))" % ('5a' * 1500)),
     ("(seq (r (tag e c 0 (str 23))) (r int))", "(seq (s 3137303830313132303131325a) (i 5))"),
     ("(set (r (tag e a 1 (str 24))) (r (tag i c 2 (str 23))))", "(seq (s 32303137303830313132303131325a) (s 3137303830313132303131325a))"),
     ("(set (r (tag i c 0 real)) (r enum))", "(seq (real -3 2 128) (i -32769))"),      # D13
